@@ -53,7 +53,7 @@ HDRH=$(sha256sum "$REPO/src/TinyJAMBU.h" | cut -c1-12)   # the harness includes 
 H="$B/h/$SIMH-$HDRH/$HARN_KIND"
 if [ ! -f "$H/ok" ]; then
   rm -rf "$H"; mkdir -p "$H"
-  if [ "$HARN_KIND" = asan ]; then HCXX="clang++ -O1 -g -fsanitize=address -fno-omit-frame-pointer"; HCC="clang -O1 -g -fsanitize=address"
+  if [ "$HARN_KIND" = asan ]; then HCXX="clang++ -O1 -g -fsanitize=address -fsanitize-recover=address -fno-omit-frame-pointer"; HCC="clang -O1 -g -fsanitize=address -fsanitize-recover=address"
   else HCXX="g++ -O2 -g"; HCC="gcc -O2 -g"; fi
   pids=()
   for f in core engine gen run main; do
@@ -74,7 +74,7 @@ if [ ! -x "$OUT" ]; then
   case "$VARIANT" in
     prod) ;;
     hook) FLAGS="$(strip_O "$FLAGS") -O2 -DTINYJAMBU_VERIF";;
-    san)  CC=clang; FLAGS="$(strip_O "$FLAGS") -O1 -g -fno-omit-frame-pointer -fsanitize=address -DTINYJAMBU_VERIF";;
+    san)  CC=clang; FLAGS="$(strip_O "$FLAGS") -O1 -g -fno-omit-frame-pointer -fsanitize=address -fsanitize-recover=address -DTINYJAMBU_VERIF";;
     trng-getrandom)  TRNG_FLAVOR=getrandom;  TRNG_MODE=macros;;
     trng-getentropy) TRNG_FLAVOR=getentropy; TRNG_MODE=macros;;
     trng-syscall)    TRNG_FLAVOR=syscall;    TRNG_MODE=macros;;
@@ -123,7 +123,8 @@ if [ ! -x "$OUT" ]; then
   ( cd "$T/o" && nm -u *.o | awk 'NF==2{print $2}' | sort -u ) > "$T/imports.txt" || true
   # seams at the libc boundary
   objcopy --redefine-sym getrandom=verif_os_getrandom --redefine-sym getentropy=verif_os_getentropy --redefine-sym syscall=verif_os_syscall \
-          --redefine-sym open=verif_os_open --redefine-sym open64=verif_os_open64 --redefine-sym read=verif_os_read --redefine-sym close=verif_os_close "$TO"
+          --redefine-sym open=verif_os_open --redefine-sym open64=verif_os_open64 --redefine-sym read=verif_os_read --redefine-sym close=verif_os_close \
+          --redefine-sym fcntl=verif_os_fcntl --redefine-sym fcntl64=verif_os_fcntl64 --redefine-sym dup=verif_os_dup "$TO"
   for f in "$T"/o/*.o; do
     objcopy --redefine-sym malloc=verif_lib_malloc --redefine-sym calloc=verif_lib_calloc --redefine-sym realloc=verif_lib_realloc --redefine-sym free=verif_lib_free \
             --redefine-sym posix_memalign=verif_lib_posix_memalign --redefine-sym aligned_alloc=verif_lib_aligned_alloc "$f"
